@@ -18,6 +18,8 @@ class ArrV:
         self.name = name
         self.init = init
 
+    view = None
+
     def __repr__(self):
         return "Arr(%s)" % self.name
 
@@ -107,6 +109,13 @@ class LoopInterp(Interp):
                 self.record(a0.name, i, Poly.var(a0.name, j))
                 self.record(a0.name, j, Poly.var(a0.name, i))
                 return UNIT
+            if name in ("column_mut", "column") and len(args) == 2:
+                v = ArrV("%s.col[%s]" % (a0.name, idx_str(args[1])))
+                v.view = (a0.name, idx_str(args[1]))
+                return v
+            if name == "assign" and getattr(a0, "view", None) and len(args) == 2 and isinstance(unref(args[1]), ArrV):
+                self.events.append((tuple(self.frames), "assign-column", a0.view[0], a0.view[1], unref(args[1]).name))
+                return UNIT
             if name in ("fill", "assign", "add_assign", "sub_assign"):
                 self.events.append((tuple(self.frames), name, a0.name, repr(unref(args[1])) if len(args) > 1 else ""))
                 return UNIT
@@ -114,6 +123,7 @@ class LoopInterp(Interp):
             return ArrV("%s.%s" % (a0.name, name))
         if name in ("zeros", "eye", "ones") and "ndarray" in (path + ipath):
             self.n_arrays += 1
+            self.events.append((tuple(self.frames), "new-array", "new%d" % self.n_arrays, name))
             return ArrV("new%d" % self.n_arrays, init=name)
         if isinstance(a0, Rec) and a0.adt.startswith("std::Range") and name == "collect":
             self.n_arrays += 1
@@ -133,6 +143,16 @@ class LoopInterp(Interp):
         if name == "into_iter" and isinstance(a0, Rec) and a0.adt.startswith("std::Range"):
             return a0
         return Interp.leaf_call(self, name, path, ipath, c, args, e)
+
+    def call_body(self, body, args, e=None):
+        # a call of another verified routine of the module (solve) is kept as a summary: `solve(b)`
+        if self.depth > 0 and body.get("path", "").startswith("linalg::") and body.get("name") == "solve" and len(args) == 2 \
+                and isinstance(unref(args[1]), ArrV):
+            self.n_arrays += 1
+            r = ArrV("new%d" % self.n_arrays, init=("solve", unref(args[1]).name))
+            self.events.append((tuple(self.frames), "call-solve", unref(args[1]).name, r.name))
+            return r
+        return Interp.call_body(self, body, args, e)
 
     def binop(self, op, a, b, c, e):
         ua, ub = unref(a), unref(b)
@@ -291,6 +311,11 @@ def expect(chk, key, rule, F, body, updates, wanted, arrays):
     for u in updates:
         if u["arr"] in arrays and not any(u["arr"] == w[0] and u["idx"] == tuple(w[1]) and equal(u["rhs"], w[2]) for w in wanted):
             extra.append(describe([u])[0])
+    if wanted and len(missing) * 2 > len(wanted):
+        # most statements of the recognised scheme are absent: the routine is organised differently (not a local deviation)
+        chk.undecide(key, "unsupported: the routine does not follow the recognised scheme (%d of %d statements found)" % (
+            len(wanted) - len(missing), len(wanted)), body_loc(F, body))
+        return
     chk.ob(key, not missing and not extra, rule, body_loc(F, body),
            found=("missing: %s; " % missing[:3] if missing else "") + ("unexpected: %s" % extra[:3] if extra else "") or
            "%d update statements match" % len(wanted),
@@ -421,6 +446,8 @@ def run_loops(chk, F):
     else:
         try:
             ups, ev, paths = updates_of(F, body, lambda: [lu_self()], roles=lambda v: role_map([(v, "IA")]))
+            if inverse_by_solve(chk, F, body, ups, ev, paths):
+                raise StopIteration
             fw = [u for u in ups if u["arr"] == "IA" and len(u["frames"]) == 3 and not u["frames"][1][3]]
             bw = [u for u in ups if u["arr"] == "IA" and len(u["frames"]) == 3 and u["frames"][1][3]]
             wanted = []
@@ -449,6 +476,8 @@ def run_loops(chk, F):
                    body_loc(F, body), found="unit entries set under: %s" % sorted({d for pp in paths for (k, d, b, f) in pp["ctx"].trace if b})[:3],
                    required="p[i] == j")
             chk.count("loop-body update statements checked", len(wanted) + 1)
+        except StopIteration:
+            pass
         except Unsupported as ex:
             chk.undecide("loops|lu-inverse", "unsupported: %s" % ex, body_loc(F, body))
     # ------------------------------------------------------------------ determinant
@@ -750,3 +779,35 @@ def jacobi_control(chk, F, body, paths, P, Q):
                "BOTH diagonal elements it couples (g + |d_p| == |d_p| and g + |d_q| == |d_q|)", loc,
                found=sorted(set(bad3))[:2] or "%d annihilation paths test both" % n_ann, nontrivial=n_ann > 0)
     chk.count("loop-body update statements checked", 3)
+
+
+def inverse_by_solve(chk, F, body, ups, events, paths):
+    """alternative scheme: column j of the inverse is solve(e_j) (solve itself is verified by loops|lu-solve).  Returns True when the
+    routine is of this form (and records the obligations), False to fall back to the explicit substitution scheme."""
+    calls = [e for e in events if e[1] == "call-solve"]
+    assigns = [e for e in events if e[1] == "assign-column"]
+    if not calls or not assigns:
+        return False
+    inv = {}
+    for pp in paths:
+        for nm, role in pp["roles"].items():
+            inv[nm] = role
+    ok, found = True, []
+    for (frames, _, tgt, col, src) in assigns:
+        call = [c for c in calls if c[3] == src and c[0] == frames]
+        if inv.get(tgt, tgt) != "IA" or len(frames) != 1 or frames[0][1:] != ("0", "n", False) or col != frames[0][0] or len(call) != 1:
+            ok = False
+            found.append("column %s of %s <- %s in %s" % (col, inv.get(tgt, tgt), src, [f[0] for f in frames]))
+            continue
+        unit = call[0][2]
+        uu = [u for u in ups if u["arr"] == unit]
+        is_unit = len(uu) == 1 and uu[0]["idx"] == (col,) and uu[0]["rhs"].const_value() == 1 and uu[0]["frames"] == frames
+        zero_init = any(e[1] == "new-array" and e[2] == unit and e[3] == "zeros" and e[0] == frames for e in events)
+        found.append("column %s <- solve(%s), %s = e_%s: %s, fresh zero vector per column: %s" % (col, unit, unit, col, is_unit, zero_init))
+        ok = ok and is_unit and zero_init
+    other = [u for u in ups if u["arr"] == "IA"]
+    chk.ob("loops|lu-inverse", ok and not other, "inverse is assembled column by column as solve(e_j) (the unit vector is a fresh zero vector "
+           "with a one at j; solve is verified separately)", body_loc(F, body), found=found[:3] + [describe(other)[:2]] if other else found[:3],
+           required="ia[:, j] = solve(e_j) for j in 0..n")
+    chk.count("loop-body update statements checked", 6)
+    return True
